@@ -3,7 +3,7 @@
 # copy of /repo (outside /repo and /verif), run EVERY registered quick check against the copy, report any non-zero exit.
 src="$1"; jobs="${2:-4}"
 cd "$(dirname "$0")/.." || exit 2
-for pd in "$src"/h*/; do
+for pd in "$src"/*h[0-9]*/; do
   id=$(basename "$pd")
   d=$(mktemp -d /tmp/harmless.XXXXXX)
   rsync -a --exclude .git /repo/ "$d/"
